@@ -250,6 +250,11 @@ class ZoneStatusDecoder(
             )
             self._mismatch_logged = True
 
+        # The console announces the length of any non-repeating ("normal") data
+        # that precedes the repeating records. The interface specification says
+        # to use the announced value for parsing, so skip over it.
+        buffer = buffer[header.non_repeat_length :]
+
         zones: list[ZoneStatusData] = []
         for _ in range(header.repeat_count):
             (
